@@ -1,0 +1,10 @@
+//go:build verif
+
+// Verification hooks (build tag "verif") for the replay property. Add-only.
+
+package cipher
+
+import "time"
+
+// VerifC06SaltFromTime returns the salts of the key slots valid at instant t.
+func VerifC06SaltFromTime(t time.Time) [][]byte { return saltFromTime(t) }
